@@ -346,6 +346,7 @@ func (ex *Exec) applyContract(st *State, fr *Frame, sp *FuncSpec, fn *ssa.Functi
 		ex.Assumed[sp.Name] = true
 	}
 	env := ex.calleeEnv(st, sp, fn, sig, args, recvName)
+	env.lets = sp.Lets
 	for i, c := range sp.Requires {
 		t := ex.evalBool(env, c.Expr)
 		ex.emit(st, "pre", fmt.Sprintf("%s:%s@%s", sp.Name, clauseLabel(c, i), ex.callSite(fr, pos)), t, pos, mergeProps(sp.Props, c.Props))
@@ -404,6 +405,7 @@ func (ex *Exec) applyContract(st *State, fr *Frame, sp *FuncSpec, fn *ssa.Functi
 	res := freshValue("ret", rt)
 	ex.assumeInv(st, rt, res)
 	env2 := ex.calleeEnv(st, sp, fn, sig, args, recvName)
+	env2.lets = sp.Lets
 	env2.old = old
 	env2.bindResults(sig, res)
 	for _, c := range sp.Ensures {
@@ -538,7 +540,7 @@ func (ex *Exec) doAppend(st *State, fr *Frame, c *ssa.CallCommon, args []Value, 
 	}
 	fresh := ex.alloc(st)
 	newCap := Fresh("appcap", SInt)
-	st.assume(And(Le(newLen, newCap), Le(newCap, BigLit(pow2(62)))))
+	st.assume(And(Le(newLen, newCap), Le(newCap, BigLit(pow2(48)))))
 	resArr := Ite(fits, s.Arr, fresh)
 	resOff := Ite(fits, s.Off, Zero)
 	resCap := Ite(fits, s.Cap, newCap)
